@@ -72,7 +72,9 @@ Inductive mut :=
 | MSetHeader (n v : str)
 | MAddHeader (n v : str)
 | MSetCookie (n rendered : str)
-| MHook (e : hookedit).
+| MHook (e : hookedit)
+| MDelHeader (n : str)        (* response.headers.pop(n, None) / del response.headers[n] when present *)
+| MClearHeaders.              (* response.headers.clear() *)
 
 Inductive hres :=
 | HRet (o : out)
@@ -181,6 +183,8 @@ Definition apply_mut (m : mut) (st : rstate) : rstate :=
   | MAddHeader n v => st_hs st (h_append n v (s_hs st))
   | MSetCookie n v => mkSt (s_code st) (s_line st) (s_hs st) (j_set n v (s_cs st))
   | MHook _ => st                                               (* the hook lists are not part of the response *)
+  | MDelHeader n => st_hs st (filter (fun kv => negb (str_eqb n (fst kv))) (s_hs st))
+  | MClearHeaders => st_hs st []
   end.
 Definition apply_muts (ms : list mut) (st : rstate) : rstate := fold_left (fun s m => apply_mut m s) ms st.
 
@@ -656,19 +660,29 @@ Definition catchall (ev : list event) (st : rstate) : wsgi_res :=
        | None => WsEscaped ev'
        end.
 
-(* everything after self._handle(environ) returned *)
-Definition wsgi_tail (evH : list event) (st : rstate) (o : out) : wsgi_res :=
+(* everything after self._handle(environ) returned; [catch] = the except clause of wsgi() *)
+Definition wsgi_tail_gen (catch : list event -> rstate -> wsgi_res)
+           (evH : list event) (st : rstate) (o : out) : wsgi_res :=
   match cast cast_fuel 1 o st with
   | COutOfFuel => WsOutOfFuel
-  | CRaise => catchall evH st
+  | CRaise => catch evH st
   | CDone w st' wrote =>
       let '(evC, w') :=
         if nobody (s_code st') || e_head env then (close_events w, WList []) else ([], w) in
       match headerlist st' with
       | Some hl => WsOk (evH ++ evC ++ [EvStart (s_line st') hl false]) w' st' wrote
-      | None => catchall (evH ++ evC) st'
+      | None => catch (evH ++ evC) st'
       end
   end.
+
+(* config.catchall = True (the default) *)
+Definition wsgi_tail := wsgi_tail_gen catchall.
+(* config.catchall = False: "if not self.config.catchall: raise" (ombott.py:410) — the exception
+   leaves Ombott.wsgi, start_response is not called by the except clause *)
+Definition wsgi_tail_nocatch := wsgi_tail_gen (fun ev _ => WsEscaped ev).
+
+Definition wsgi_nocatch (p : program) : wsgi_res :=
+  let '(evH, st, o) := handle p in wsgi_tail_nocatch evH st o.
 
 Definition wsgi (p : program) : wsgi_res :=
   let '(evH, st, o) := handle p in wsgi_tail evH st o.
@@ -861,6 +875,8 @@ Definition dec_mut (l : list Z) : option (mut * list Z) :=
   | 3%Z :: r => match dec_pair dec_str dec_str r with Some ((n, v), r') => Some (MSetCookie n v, r') | None => None end
   | 4%Z :: a :: j :: r => Some (MHook (HERemove (negb (Z.eqb a 0)) (Z.to_nat j)), r)
   | 5%Z :: a :: j :: r => Some (MHook (HEAdd (negb (Z.eqb a 0)) (Z.to_nat j)), r)
+  | 6%Z :: r => match dec_str r with Some (n, r') => Some (MDelHeader n, r') | None => None end
+  | 7%Z :: r => Some (MClearHeaders, r)
   | _ => None
   end.
 
@@ -941,12 +957,13 @@ Definition enc_event (e : event) : list Z :=
   end.
 
 (* tag 0: wsgi returned, 1: an exception escaped; then the events *)
-Definition enc_wsgi env eh (p : program) : list Z :=
-  match wsgi env eh p with
+Definition enc_res (r : wsgi_res) : list Z :=
+  match r with
   | WsOk ev w st _ => 0%Z :: enc_list enc_event (ev ++ consume w st)
   | WsEscaped ev => 1%Z :: enc_list enc_event ev
   | WsOutOfFuel => [9%Z]
   end.
+Definition enc_wsgi env eh (p : program) : list Z := enc_res (wsgi env eh p).
 
 Definition enc_sres (r : sres) : list Z :=
   match r with
@@ -961,7 +978,7 @@ Definition enc_sres (r : sres) : list Z :=
    input of kind 1 (status setter):
      reason table (list of code, phrase) ; 0 code | 1 line *)
 (* one request (input of kind 0 without its tag) *)
-Definition corr_req (inp : list Z) : list Z :=
+Definition corr_req (catch : bool) (inp : list Z) : list Z :=
   let fuel := length inp in
   match inp with
   | hd :: fw :: js :: r0 =>
@@ -978,7 +995,8 @@ Definition corr_req (inp : list Z) : list Z :=
     match dec_list (dec_hprog fuel) r4 with Some (aft, r5) =>
     match dec_routing fuel r5 with Some (rt, _) =>
       let env := mkEnv (negb (Z.eqb hd 0)) (negb (Z.eqb fw 0)) (negb (Z.eqb js 0)) url path in
-      enc_wsgi env (eh_of_table tbl) (mkProg bef aft rt)
+      (if catch then enc_wsgi env (eh_of_table tbl) (mkProg bef aft rt)
+       else enc_res (wsgi_nocatch env (eh_of_table tbl) (mkProg bef aft rt)))
     | None => bad_input end | None => bad_input end | None => bad_input end
     | None => bad_input end | None => bad_input end | None => bad_input end
   | _ => bad_input
@@ -999,10 +1017,11 @@ Definition dec_block (l : list Z) : option (list Z * list Z) :=
 Definition corr_C03 (inp : list Z) : list Z :=
   let fuel := length inp in
   match inp with
-  | 0%Z :: r => corr_req r
+  | 0%Z :: r => corr_req true r
+  | 3%Z :: r => corr_req false r                 (* config.catchall = False *)
   | 2%Z :: r =>
       match dec_list dec_block r with
-      | Some (blocks, _) => enc_list (fun b => let o := corr_req b in Z.of_nat (length o) :: o) blocks
+      | Some (blocks, _) => enc_list (fun b => let o := corr_req true b in Z.of_nat (length o) :: o) blocks
       | None => bad_input
       end
   | 1%Z :: r0 =>
